@@ -10,7 +10,7 @@ import (
 
 func init() {
 	register(&propInfo{ID: "C18", Level: "other", Run: runC18,
-		Explanation: "Narrow claim — three structural necessary conditions of 'the example store returns what was stored': R18.a stored client data leaves the example handlers only through binary-safe reply constructors (bulk strings, string arrays of bulks, integers, floats): the status-reply constructor is called with constants only, so a value containing CR, LF or any other byte comes back as stored; R18.b a function that stores a record under a new name and deletes the old name either deletes first or tests the two names for equality before deleting (renaming a key onto itself keeps it); R18.c SET and HSET store the very value parameter they were given. Reply equality with a reference Redis model over command programs (orders, counts, duplicates) is a value property of the data-structure code and is NOT decided."})
+		Explanation: "Narrow claim — six structural necessary conditions of 'the example store returns what was stored': R18.a stored client data leaves the example handlers only through binary-safe reply constructors (bulk strings, string arrays of bulks, integers, floats): the status-reply constructor is called with constants only, so a value containing CR, LF or any other byte comes back as stored; R18.b a function that stores a record under a new name and deletes the old name either deletes first or tests the two names for equality before deleting (renaming a key onto itself keeps it); R18.c SET and HSET store the very value parameter they were given; R18.d an in-place helper (reverse, sort) is never handed a reslice of a container's own field, so a read does not reorder what is stored; R18.e a loop that stores to a receiver field does not consult a copy of the field taken before the loop (no duplicates from one SADD); R18.f float conversions use 64 bits. Reply equality with a reference Redis model over command programs (orders, counts, duplicates) is a value property of the data-structure code and is NOT decided."})
 }
 
 func runC18(c *Ctx) {
